@@ -1154,3 +1154,6 @@ LEVEL_TEXT = ("Bounded symbolic verification: the real predicates (lineOfSight, 
 LEVEL_NOTE = ("Real arithmetic instead of doubles (rounding outside the claim); contracts for sqrt/arccos/arcsin/arctan2 (angle algebra, monotonicity "
               "instances); O3/O4/O4b use providers for az/el/range/LoS primitives (each checked separately in O1/O3b); the penumbra value is proved equal to the "
               "circular-segment form of the disc overlap over the apparent radii/separation (its lower bound 0 then rests on geometry, not on a solver verdict).")
+
+
+BOUNDS["conic field of view"] = "6-element SEZ states with symbolic velocity halves (their Gram entries are cut variables too): membership must not depend on them"
